@@ -612,6 +612,20 @@ type Rec struct {
 }
 
 
+def _deep(n, leaves):
+    """a chain of n optional groups: definition levels up to n+1 (3 and 4 bit level streams in real files)"""
+    src = "package main\n\n"
+    for i in range(n, 0, -1):
+        inner = ("N%d *D%d" % (i + 1, i + 1)) if i < n else leaves
+        src += "type D%d struct {\n\t%s\n}\n" % (i, inner)
+    return src + "type Rec struct {\n\tID int64\n\tN1 *D1\n}\n"
+
+
+FIXED["Deep5"] = _deep(4, "V *int32\n\tW string\n\tR []bool")
+FIXED["Deep15"] = _deep(14, "V *int32\n\tW string")
+FIXED["Deep14R"] = _deep(13, "V *int64\n\tR []string")
+
+
 def fixed_shapes(names=None):
     return [("fixed:" + n, FIXED[n]) for n in (names or FIXED.keys())]
 
